@@ -37,9 +37,9 @@ def check(ctx: Ctx) -> str:
     ctx.check(len(r_raw) == 1 and sorted(gs) == sorted([("head", True), ("isinstance(raw, str)", False), ("len(head) == 1", True)]), "single-native", "nativetypes:native_concat", "single non-string value",
               f"a single piece that is not a string must be returned itself (guards found: {gs}); any other condition converts native values to text or returns text pieces unparsed", nc.loc(), detail={"guards": gs})
     ctx.check("raw = head[0]" in s, "single:first", "nativetypes:native_concat", "the single piece", "the single piece is head[0]", nc.loc())
-    rech = [a for a in ast.walk(nc.node) if isinstance(a, ast.Assign) and ast.unparse(a.targets[0]) == "values" and ast.unparse(a.value) == "chain(head, values)"]
-    joins = [a for a in ast.walk(nc.node) if isinstance(a, ast.Assign) and ast.unparse(a.targets[0]) == "raw" and isinstance(a.value, ast.Call) and ast.unparse(a.value.func) == "''.join" and len(a.value.args) == 1 and isinstance(a.value.args[0], (ast.ListComp, ast.GeneratorExp))]
-    ok_re = len(rech) == 1 and ("isinstance(values, GeneratorType)", True) in astq.guard_atoms(nc.node, rech[0]) and len(joins) == 1 and (rech[0].lineno, rech[0].col_offset) < (joins[0].lineno, joins[0].col_offset)
+    rech = [a for a in ast.walk(nc.nnode) if isinstance(a, ast.Assign) and ast.unparse(a.targets[0]) == "values" and ast.unparse(a.value) == "chain(head, values)"]
+    joins = [a for a in ast.walk(nc.nnode) if isinstance(a, ast.Assign) and ast.unparse(a.targets[0]) == "raw" and isinstance(a.value, ast.Call) and ast.unparse(a.value.func) == "''.join" and len(a.value.args) == 1 and isinstance(a.value.args[0], (ast.ListComp, ast.GeneratorExp))]
+    ok_re = len(rech) == 1 and ("isinstance(values, GeneratorType)", True) in astq.guard_atoms(nc.nnode, rech[0]) and len(joins) == 1 and (rech[0].lineno, rech[0].col_offset) < (joins[0].lineno, joins[0].col_offset)
     if ok_re:
         comp = joins[0].value.args[0]  # type: ignore[attr-defined]
         tv = ast.unparse(comp.generators[0].target)
@@ -142,7 +142,7 @@ def check(ctx: Ctx) -> str:
     from . import c15
 
     ctx.run_imported("C15", {"R6"}, c15.check)
-    ctx.rule("R5", "Macro._invoke and Macro._async_invoke return the same thing: the macro's value wrapped in Markup under autoescape, the value itself otherwise (no text conversion on one side only)")
+    ctx.rule("R7", "Macro._invoke and Macro._async_invoke return the same thing: the macro's value wrapped in Markup under autoescape, the value itself otherwise (no text conversion on one side only)")
     ctx.use("runtime")
     wraps: dict[str, set[str]] = {}
     for fname in ("_invoke", "_async_invoke"):
